@@ -21,15 +21,6 @@ let ends_with (s : n list) (suf : n list) =
   ls >= lf && List.filteri (fun i _ -> i >= ls - lf) s = suf
 let has_nl b = List.exists (fun x -> x = nl) b
 
-(* does a ditto mark stand for the empty package path? (known finding class) *)
-let ditto_for_empty_path frames =
-  let rec go last = function
-    | [] -> false
-    | f :: fs ->
-      let p = path_of f.fr_func in
-      if p = last then (p = [] || go last fs) else go p fs in
-  go [] frames
-
 (* names seen so far (untruncated): name -> (prefix, frames) *)
 let seen : (string, (n list * frame list)) Hashtbl.t = Hashtbl.create 1024
 
@@ -60,12 +51,12 @@ let handle kind c =
       let dl = first k (String.split_on_char '\n' (string_of_bytes dec)) in
       let pl = first k (String.split_on_char '\n' (string_of_bytes (render_plain prefix frames))) in
       if dl <> pl then
-        prop (if ditto_for_empty_path frames then "ditto-empty-path" else "decode-encode-truncated")
+        prop "decode-encode-truncated"
           (Printf.sprintf "complete-lines=%d decoded=%S uncompressed=%S" k (String.concat "\n" dl) (String.concat "\n" pl))
     end else begin
       let plain = render_plain prefix frames in
       if dec <> plain then
-        prop (if ditto_for_empty_path frames then "ditto-empty-path" else "decode-encode")
+        prop "decode-encode"
           (Printf.sprintf "EncodeStack=%s DecodeStack=%s uncompressed=%s" (show_b name) (show_b dec) (show_b plain));
       (match Hashtbl.find_opt seen (string_of_bytes name) with
        | Some (p0, f0) -> if p0 <> prefix || f0 <> frames then
